@@ -358,6 +358,24 @@ def check_batch(ctx, res, cases, bucket, full=True):
                 if not rep_n["validated"]:
                     res.disagree(case, "the repaired model splices in a section that fails the validator",
                                  model=dict(gates=short(rep_n["gates"])))
+                # hypothesis and conclusion of the proved theorem accepted_xonly / C12_full, per section: the
+                # expressions handed to the compiler are keyed by distinct qubit names, and every section the
+                # repaired model accepts consists of the X gates of its self-negations q = ~q
+                for ms in rep_n["sections"]:
+                    if "error" in ms:
+                        continue
+                    res.extra["sections_seen"] = res.extra.get("sections_seen", 0) + 1
+                    if not ms.get("keys_ok"):
+                        res.disagree(case, "the expressions handed to the compiler are not keyed by distinct qubit names "
+                                           "(hypothesis keysOK of accepted_xonly)", model=dict(section=[ms["start"], ms["stop"]]))
+                    if ms["accepted"]:
+                        res.extra["sections_accepted"] = res.extra.get("sections_accepted", 0) + 1
+                        if ms["new"]:
+                            res.extra["sections_accepted_with_gates"] = res.extra.get("sections_accepted_with_gates", 0) + 1
+                        if not ms.get("xonly"):
+                            res.disagree(case, "the repaired model accepts a re-synthesis that is not the X gates of the "
+                                               "section's self-negations (contradicts the proved accepted_xonly)",
+                                         model=dict(section=[ms["start"], ms["stop"]], new=short(ms["new"])))
                 v_n = judge(n, gates, dict(gates=rep_n["gates"], num_qubits=n), full)
                 if v_n is not None:
                     res.disagree(case, "the repaired model violates the oracle: " + v_n[0], model=dict(gates=short(rep_n["gates"])))
@@ -592,8 +610,10 @@ def run(ctx: Ctx) -> Result:
     res.assumptions.append("gate tuples are built by QCircuit.append (arity = n_qubits, distinct wires)")
     res.assumptions.append("X/CX/CCX/MCX/MCtrl(X) permute basis states as applyClassical says, I and barriers are the "
                            "identity (SemLaws); all other gates arbitrary")
-    res.assumptions.append("C12_statement itself is not proved: the missing compiler-correctness part is replaced by the "
-                           "proved-sound validator (C12_partial) run on every splice of every case")
+    res.notes.append("C12_full (= C12_statement) is proved: every re-synthesis the repaired splice test accepts consists of the "
+                     "X gates of self-negations (accepted_xonly, from the compiler model) and such a splice keeps the action "
+                     "(xonly_splice_ok); its hypothesis keysOK and its conclusion xonly are re-checked on every section of every "
+                     "case, next to the validator of C12_partial")
     return res
 
 
